@@ -11,16 +11,16 @@ from . import propagation as P
 
 TIERS = {
     # seeds, configs per assembly, schedules per config, wall budget (s)
-    "quick": {"C01": (700, 2, 4, 40), "C02": (600, 2, 6, 45), "C04": (600, 2, 4, 45)},
+    "quick": {"C01": (500, 2, 4, 35), "C02": (500, 2, 6, 35), "C04": (600, 2, 4, 35)},
     "thorough": {"C01": (12000, 4, 12, 1500), "C02": (10000, 4, 24, 1500), "C04": (10000, 4, 12, 1500)},
 }
 
 OPTS = {
-    "C01": {"categories": [("ok", 0.35), ("undefined", 0.1), ("conflict", 0.55)], "p_curved": 0.0, "jitters": [0.0, 0.05, 0.15]},
-    "C02": {"categories": [("ok", 0.6), ("undefined", 0.3), ("conflict", 0.1)], "p_curved": 0.0, "p_multi_source": 0.6,
+    "C01": {"categories": [("ok", 0.35), ("undefined", 0.1), ("conflict", 0.55)], "p_curved": 0.0, "jitters": [0.0, 0.05, 0.15], "p_path": 0.2},
+    "C02": {"categories": [("ok", 0.6), ("undefined", 0.3), ("conflict", 0.1)], "p_curved": 0.0, "p_multi_source": 0.6, "p_path": 0.4,
             "p_same_expansion": 0.5, "jitters": [0.0, 0.05, 0.15]},
-    "C04": {"categories": [("ok", 0.95), ("undefined", 0.0), ("conflict", 0.05)], "p_curved": 0.12, "p_multi_source": 0.25,
-            "p_same_expansion": 1.0, "jitters": [0.05, 0.15, 0.25]},
+    "C04": {"categories": [("ok", 0.95), ("undefined", 0.0), ("conflict", 0.05)], "p_curved": 0.12, "p_multi_source": 0.3, "p_path": 0.25,
+            "p_same_expansion": 0.5, "jitters": [0.05, 0.15, 0.25]},
 }
 
 MODES = ["uniform", "chopless_first", "asc", "desc", "uniform", "chopped_first", "uniform", "reverse"]
@@ -33,6 +33,9 @@ def schedules(seed: int, cfg: int, k: int) -> List[Dict[str, Any]]:
 def build(seed: int, pid: str, ncfg: int) -> Tuple[Dict[str, Any], List[Dict[str, Any]]]:
     rs = Stream(seed, "workload", pid)
     opts = OPTS[pid]
+    if pid in ("C01", "C02") and rs.chance(opts.get("p_shapes", 0.05)):
+        progs = [P.gen_shape_program(Stream(seed, "shape", pid), h64(seed, "cfg", c) % (1 << 31)) for c in range(ncfg)]
+        return {"meta": progs[0]["meta"], "points": {}, "blocks": [], "chops": progs[0]["ops"]}, progs
     geo = P.gen_assembly(rs.sub("geo"), opts)
     geo = P.add_curved(rs.sub("curved"), geo, opts)
     geo = P.place_chops(rs.sub("chops"), geo, opts)
@@ -43,14 +46,26 @@ def build(seed: int, pid: str, ncfg: int) -> Tuple[Dict[str, Any], List[Dict[str
 def evaluate(pid: str, program: Dict[str, Any], scheds: List[Dict[str, Any]], pre_files=None) -> Dict[str, Any]:
     """Runs one program under the given schedules and applies every oracle.
     Returns violations (all properties), per-run info and reach statistics."""
-    asm, names = P.ref_assembly(program)
-    verdict = models.judge_families(asm)
+    shapes = bool(program.get("meta", {}).get("shapes"))
+    asm = names = verdict = None
+    if not shapes:
+        asm, names = P.ref_assembly(program)
+        verdict = models.judge_families(asm)
     viols: List[Dict[str, Any]] = []
     runs = []
     stats: Dict[str, int] = {}
     first = None
     for si, sc in enumerate(scheds):
         res = P.run_once(program, sc, pre_files)
+        if shapes:
+            if res.snapshot is None:
+                # construction itself failed: not a propagation verdict
+                runs.append({"sched": sc, "outcome": res.outcome, "sig": digest(res.outcome), "log": res.log_digest, "copy_calls": 0,
+                             "decisions": 0, "fam_counts": None, "consulted": {}, "msg": res.exc_msg})
+                stats["shape_construction_failed"] = stats.get("shape_construction_failed", 0) + 1
+                continue
+            asm, names = P.assembly_from_snapshot(res.snapshot)
+            verdict = models.judge_families(asm)
         parsed = None
         vs: List[P.Violation] = []
         try:
@@ -59,7 +74,7 @@ def evaluate(pid: str, program: Dict[str, Any], scheds: List[Dict[str, Any]], pr
             vs.append(P.Violation("C06", "unparsable", repr(e)))
         vs += P.oracle_counts(program, asm, names, verdict, res, parsed)
         vs += P.oracle_outcome(program, verdict, res, pre_files)
-        v4, st4 = P.oracle_sizes(program, asm, names, verdict, res, parsed)
+        v4, st4 = ([], {}) if shapes else P.oracle_sizes(program, asm, names, verdict, res, parsed)
         vs += v4
         for k, v in st4.items():
             stats[k] = stats.get(k, 0) + v
@@ -68,7 +83,8 @@ def evaluate(pid: str, program: Dict[str, Any], scheds: List[Dict[str, Any]], pr
         stats["decisions"] = stats.get("decisions", 0) + res.decisions
         fam_counts = None
         if parsed is not None and len(parsed.blocks) == len(names):
-            fam_counts = family_counts(program, names, parsed)
+            fam_counts = {f"{n}.g{a}": parsed.blocks[bi]["counts"][a] for bi, n in enumerate(names) for a in range(3)} if shapes \
+                else family_counts(program, names, parsed)
         sig = (res.outcome, tuple(sorted((k, digest(v)) for k, v in res.files.items())))
         runs.append({"sched": sc, "outcome": res.outcome, "sig": digest(sig), "log": res.log_digest, "copy_calls": res.copy_calls,
                      "decisions": res.decisions, "fam_counts": fam_counts, "consulted": res.consulted, "msg": res.exc_msg})
@@ -84,7 +100,11 @@ def evaluate(pid: str, program: Dict[str, Any], scheds: List[Dict[str, Any]], pr
             d = v.to_json()
             d["sched_index"] = si
             viols.append(d)
-    return {"violations": viols, "runs": runs, "stats": stats, "klass": verdict.klass, "n_blocks": len(names),
+    if verdict is None:
+        return {"violations": viols, "runs": runs, "stats": stats, "klass": "construction-failed", "n_blocks": 0, "families": 0, "multi_source": 0}
+    if shapes:
+        stats["shape_programs"] = stats.get("shape_programs", 0) + 1
+    return {"violations": viols, "runs": runs, "stats": stats, "klass": ("shape:" if shapes else "") + verdict.klass, "n_blocks": len(names),
             "families": verdict.n_families, "multi_source": verdict.multi_source}
 
 
@@ -114,7 +134,7 @@ def task(seed: int, arg: Dict[str, Any]) -> Dict[str, Any]:
     base_counts = None
     base_class = None
     for ci, program in enumerate(programs):
-        scheds = schedules(seed, ci, k)
+        scheds = schedules(seed, ci, 2 if program.get("meta", {}).get("shapes") else k)
         ev = evaluate(pid, program, scheds)
         out["runs"] += len(ev["runs"])
         for kk, v in ev["stats"].items():
@@ -123,7 +143,8 @@ def task(seed: int, arg: Dict[str, Any]) -> Dict[str, Any]:
         out["n_blocks"] = ev["n_blocks"]
         nontrivial = ev["stats"].get("multi_candidates", 0) > 0 or ev["stats"].get("decisions", 0) > 0
         for r in ev["runs"]:
-            out["sigs"].append((digest((sorted(geo["points"]), [b["corners"] for b in geo["blocks"]], geo["chops"])), ci, r["log"], nontrivial))
+            out["sigs"].append((digest((sorted(geo["points"]), [b["corners"] for b in geo["blocks"]], geo["chops"])), ci, r["log"],
+                                nontrivial or bool(geo.get("meta", {}).get("shapes"))))
         for v in ev["violations"]:
             v = dict(v)
             v["replay"] = {"program": program, "schedules": [scheds[0], scheds[v["sched_index"]]] if v["class"] == "schedule-dependent-outcome" else [scheds[v["sched_index"]]]}
